@@ -73,6 +73,9 @@ impl FecEncoder for RaptorQEncoder {
     }
 }
 
+/// Maximum number of source symbols of a source block (K'_max, RFC 6330)
+const MAX_SOURCE_SYMBOLS_PER_BLOCK: usize = 56403;
+
 pub struct RaptorQDecoder {
     decoder: raptorq::SourceBlockDecoder,
     data: Option<Vec<u8>>,
@@ -86,7 +89,30 @@ impl RaptorQDecoder {
         nb_source_symbols: usize,
         encoding_symbol_length: usize,
         scheme: &RaptorQSchemeSpecific,
-    ) -> RaptorQDecoder {
+    ) -> Result<RaptorQDecoder> {
+        // The parameters come from the network (EXT_FTI or FDT),
+        // the raptorq crate panics when they are out of range
+        if encoding_symbol_length == 0
+            || scheme.symbol_alignment == 0
+            || encoding_symbol_length % scheme.symbol_alignment as usize != 0
+        {
+            return Err(FluteError::new(format!(
+                "RaptorQ encoding symbol length {} is not a multiple of the symbol alignment {}",
+                encoding_symbol_length, scheme.symbol_alignment
+            )));
+        }
+
+        if scheme.sub_blocks_length == 0 {
+            return Err(FluteError::new("RaptorQ number of sub-blocks is null"));
+        }
+
+        if nb_source_symbols == 0 || nb_source_symbols > MAX_SOURCE_SYMBOLS_PER_BLOCK {
+            return Err(FluteError::new(format!(
+                "RaptorQ source block of {} symbols is not supported",
+                nb_source_symbols
+            )));
+        }
+
         let config = raptorq::ObjectTransmissionInformation::new(
             (nb_source_symbols * encoding_symbol_length) as u64,
             encoding_symbol_length as u16,
@@ -97,12 +123,12 @@ impl RaptorQDecoder {
 
         let block_length = nb_source_symbols as u64 * encoding_symbol_length as u64;
         let decoder = raptorq::SourceBlockDecoder::new(sbn as u8, &config, block_length);
-        RaptorQDecoder {
+        Ok(RaptorQDecoder {
             decoder,
             data: None,
             sbn,
             encoding_symbol_length,
-        }
+        })
     }
 }
 
